@@ -1031,6 +1031,20 @@ class Gen:
         names = [a.arg for a in node.args.args if a.arg not in drop]
         self.out.append(f"(* {fname}:{node.lineno} {qual}: parameter names *)\nDefinition {coqname} : list string := {self.slist(names)}.")
 
+    def call_args(self, fname, qual, callee, coqname):
+        """the arguments of the unique call of `callee` inside `qual`, as source text: positional ones as "pos:<expr>", keyword ones as
+        "<name>=<expr>" — the wiring between two layers, pinned so that a value dropped, added, swapped or replaced there is an obligation"""
+        node = self.find(fname, qual)
+        hits = [n for n in ast.walk(node) if isinstance(n, ast.Call) and ((isinstance(n.func, ast.Name) and n.func.id == callee) or
+                                                                          (isinstance(n.func, ast.Attribute) and n.func.attr == callee))]
+        if len(hits) != 1:
+            raise Unsupported(f"{qual}: expected exactly one call of {callee}, found {len(hits)}")
+        c = hits[0]
+        if any(isinstance(a, ast.Starred) for a in c.args) or any(k.arg is None for k in c.keywords):
+            raise Unsupported(f"{qual}: call of {callee} uses * or ** arguments")
+        items = ["pos:" + ast.unparse(a) for a in c.args] + [f"{k.arg}=" + ast.unparse(k.value) for k in c.keywords]
+        self.out.append(f"(* {fname}:{c.lineno} {qual}: arguments of the call of {callee} *)\nDefinition {coqname} : list string := {self.slist(items)}.")
+
     def schema(self, schema_file, coqname):
         path = os.path.join(PKG, "schemas", schema_file)
         with open(path) as f:
@@ -1194,6 +1208,12 @@ def build_spec(g):
     g.assign_expr("ground_heat_exchangers.py", SIM, "n_hours", "hourly_n_hours", ["n_months"], index=0)
     g.assign_expr("ground_heat_exchangers.py", SIM, "n_years", "hourly_n_years", ["n_hours"])
     g.assign_expr("ground_heat_exchangers.py", SIM, "q_dot", "hourly_tile", ["q_dot", "n_years", "n_hours"], ptypes={"q_dot": "list Q"}, index=3)
+    # ---- the wiring between the layers: what each design class hands to its search, and what the manager hands to each design class ----
+    for cls, search, nm in (("DesignNearSquare", "Bisection1D", "nearsquare"), ("DesignRectangle", "Bisection1D", "rectangle"), ("DesignBiRectangle", "Bisection2D", "birectangle"),
+                            ("DesignBiZoned", "BisectionZD", "bizoned"), ("DesignBiRectangleConstrained", "BisectionZD", "constrained"),
+                            ("DesignRowWise", "RowWiseModifiedBisectionSearch", "rowwise")):
+        g.call_args("design.py", cls + ".find_design", search, f"wiring_{nm}_search")
+        g.call_args("manager.py", "GHEManager.set_design", cls, f"wiring_{nm}_design")
     # ---- GHE.size: the height left on the object is the value the root solver returned ----
     g.assign_expr("ground_heat_exchangers.py", "GHE.size", "self.bhe.b.H", "size_stored_height", ["returned_height"], index=1)
     g.assign_expr("utilities.py", "solve_root", "kg_minus_sign", "root_sign", ["minus"])
